@@ -148,8 +148,7 @@ func runC06(c *engine.Ctx) {
 	c.Floor(2, 2)
 
 	// ---- R3 ----
-	c.Rule("R3", "every access to the host index, and the duplicate test, use strings.ToLower of the host parameter")
-	n = 0
+	checkHostIndexLowered(c, "R3")
 	lowered := func(v ssa.Value) bool {
 		src := engine.Provenance(v, engine.ProvOpts{})
 		for k := range src.Calls {
@@ -159,78 +158,6 @@ func runC06(c *engine.Ctx) {
 		}
 		return false
 	}
-	// a value is "lowered" if ToLower is in its provenance, or if it is a parameter of an unexported method all of
-	// whose call sites pass a lowered value (the index access was extracted into a helper)
-	var loweredAt func(f *ssa.Function, v ssa.Value, depth int) bool
-	loweredAt = func(f *ssa.Function, v ssa.Value, depth int) bool {
-		if lowered(v) {
-			return true
-		}
-		pr, ok := engine.Unwrap(v).(*ssa.Parameter)
-		if !ok || depth > 2 {
-			return false
-		}
-		fo, _ := f.Object().(*types.Func)
-		if fo == nil || fo.Exported() {
-			return false
-		}
-		idx := -1
-		for i, q := range f.Params {
-			if q == pr {
-				idx = i
-			}
-		}
-		sites := 0
-		for _, g := range p.RepoFuncs() {
-			for _, cs := range engine.CallsTo(g, fo) {
-				sites++
-				args := engine.CallArgs(cs)
-				if idx < 0 || idx >= len(args) || !loweredAt(g, args[idx], depth+1) {
-					return false
-				}
-			}
-		}
-		return sites > 0
-	}
-	routersT := p.Named("pkg/util/vhost", "Routers")
-	var methods []*ssa.Function
-	if routersT != nil {
-		for _, mf := range methodsOf(p, routersT) {
-			methods = append(methods, mf)
-		}
-	}
-	sort.Slice(methods, func(i, j int) bool { return methods[i].Name() < methods[j].Name() })
-	for _, f := range methods {
-		f := f
-		engine.ForEachInstr(f, func(in ssa.Instruction) {
-			var m, idx ssa.Value
-			what := ""
-			switch x := in.(type) {
-			case *ssa.Lookup:
-				m, idx, what = x.X, x.Index, "lookup"
-			case *ssa.MapUpdate:
-				m, idx, what = x.Map, x.Key, "insert"
-			case ssa.CallInstruction:
-				if b, ok := x.Common().Value.(*ssa.Builtin); ok && b.Name() == "delete" {
-					m, idx, what = x.Common().Args[0], x.Common().Args[1], "delete"
-				}
-				if engine.IsCallTo(in, existObj) && f != exist {
-					n++
-					c.Check(loweredAt(f, engine.CallArgs(x)[1], 0), p.FuncName(f)+">exist-arg", in.Pos(), 1, nil,
-						"the duplicate test is made with the lower-cased host (otherwise App.Example.com and app.example.com both register and collide in the index)")
-				}
-			}
-			if m == nil {
-				return
-			}
-			if lf, _ := engine.LoadedField(m); lf != idxF {
-				return
-			}
-			n++
-			c.Check(loweredAt(f, idx, 0), fmt.Sprintf("%s>%s#%d", p.FuncName(f), what, n), in.Pos(), 1, nil, "host index %s uses the lower-cased host", what)
-		})
-	}
-	c.Floor(n, 5)
 
 	// ---- R4 ----
 	c.Rule("R4", "Routers.Add writes the index only when exist() returned false; exist() returns true exactly on location equality inside the (host, user) bucket")
@@ -540,6 +467,77 @@ func runC06(c *engine.Ctx) {
 	// ---- R9 release closures are queued only after the matching registration succeeded (shared with C13.R2) ----
 	c.Rule("R9", "in server/proxy a closure that un-registers a route, listener or group membership is appended to closeFuncs only on paths where the matching registration returned nil: a refused (duplicate) registration must leave the owner's entry alone")
 	c.Floor(checkCleanupAfterAcquire(c), 4)
+
+	// ---- R11 a refused multi-host proxy leaves no route behind (shared with C10.R2) ----
+	checkRunRollbacks(c, "R11")
+
+	// ---- R12 ----
+	checkRequestUserFallback(c, "R12")
+}
+
+// checkRequestUserFallback: the user that selects the route is taken from Proxy-Authorization for proxy-form requests
+// and from Authorization otherwise — and also for a proxy-form request that carries no proxy credentials (what
+// `curl -x frps:80 -u alice:...` sends). The function is found by what it does (the vhost function that calls
+// Request.BasicAuth); the rule: every return that did not consult Request.BasicAuth carries the fact user != "".
+func checkRequestUserFallback(c *engine.Ctx, rule string) {
+	c.Rule(rule, "the vhost helper that extracts the request's user returns without consulting Request.BasicAuth only on paths where the Proxy-Authorization user was found non-empty")
+	p := c.P
+	n := 0
+	for _, f := range p.RepoFuncs() {
+		if f.Pkg == nil || !strings.HasSuffix(f.Pkg.Pkg.Path(), "/pkg/util/vhost") || f.Parent() != nil {
+			continue
+		}
+		var basic []ssa.Instruction
+		readsProxyHeader := false
+		engine.ForEachInstr(f, func(in ssa.Instruction) {
+			call, ok := in.(ssa.CallInstruction)
+			if !ok {
+				return
+			}
+			if o := engine.CalleeObj(call); o != nil && o.Pkg() != nil && o.Pkg().Path() == "net/http" && o.Name() == "BasicAuth" {
+				basic = append(basic, in)
+			}
+			for _, a := range call.Common().Args {
+				if sv, ok := engine.ConstString(a); ok && sv == "Proxy-Authorization" {
+					readsProxyHeader = true
+				}
+			}
+		})
+		if len(basic) == 0 || !readsProxyHeader {
+			continue
+		}
+		n++
+		var res0 []ssa.Value
+		engine.ForEachInstr(f, func(in ssa.Instruction) {
+			if r, ok := in.(*ssa.Return); ok && len(r.Results) > 0 {
+				res0 = append(res0, r.Results[0])
+			}
+		})
+		c.AllPaths(p.FuncName(f)+">fallback", engine.PathCheck{Fn: f, Sink: engine.IsReturn, Track: res0,
+			Event: func(in ssa.Instruction) string {
+				for _, b := range basic {
+					if in == b {
+						return "basic"
+					}
+				}
+				return ""
+			},
+			Pred: func(st *engine.PathState) string {
+				if st.HasEvent("basic") {
+					return ""
+				}
+				r := st.Sink.(*ssa.Return)
+				u := st.Resolve(r.Results[0])
+				if sv, ok := engine.ConstString(u); ok && sv != "" {
+					return ""
+				}
+				if eq, k := st.Equal(func(v ssa.Value) bool { return v == u }, func(v ssa.Value) bool { s, ok := engine.ConstString(v); return ok && s == "" }); k && !eq {
+					return ""
+				}
+				return "the request's user is returned without falling back to the Authorization header on a path where the Proxy-Authorization user was not found non-empty: such a request is routed as anonymous"
+			}}, "fallback to Authorization whenever no proxy user was presented")
+	}
+	c.Floor(n, 1)
 }
 
 // walkerPlan abstracts a route walker (getVhost / getListener): the constants and calls it is made of.
@@ -702,4 +700,101 @@ func lenIsZero(l engine.Lit) (ssa.Value, bool) {
 		return lc.Call.Args[0], true
 	}
 	return nil, false
+}
+
+// checkHostIndexLowered (C06.R3, shared as C10.R13): every method of vhost.Routers reaches the host index with the
+// lower-cased host — Add, Get *and* Del: a Del that looks under the raw host never finds a mixed-case route, which
+// then stays registered for good.
+func checkHostIndexLowered(c *engine.Ctx, rule string) {
+	p := c.P
+	exist := fn(c, "pkg/util/vhost.Routers.exist")
+	idxF := field(c, "pkg/util/vhost", "Routers", "indexByDomain")
+	existObj := p.MethodObj("pkg/util/vhost", "Routers", "exist")
+	if exist == nil || idxF == nil {
+		return
+	}
+	c.Rule(rule, "every access to the host index, and the duplicate test, use strings.ToLower of the host parameter")
+	n := 0
+	lowered := func(v ssa.Value) bool {
+		src := engine.Provenance(v, engine.ProvOpts{})
+		for k := range src.Calls {
+			if k.Pkg() != nil && k.Pkg().Path() == "strings" && k.Name() == "ToLower" {
+				return true
+			}
+		}
+		return false
+	}
+	// a value is "lowered" if ToLower is in its provenance, or if it is a parameter of an unexported method all of
+	// whose call sites pass a lowered value (the index access was extracted into a helper)
+	var loweredAt func(f *ssa.Function, v ssa.Value, depth int) bool
+	loweredAt = func(f *ssa.Function, v ssa.Value, depth int) bool {
+		if lowered(v) {
+			return true
+		}
+		pr, ok := engine.Unwrap(v).(*ssa.Parameter)
+		if !ok || depth > 2 {
+			return false
+		}
+		fo, _ := f.Object().(*types.Func)
+		if fo == nil || fo.Exported() {
+			return false
+		}
+		idx := -1
+		for i, q := range f.Params {
+			if q == pr {
+				idx = i
+			}
+		}
+		sites := 0
+		for _, g := range p.RepoFuncs() {
+			for _, cs := range engine.CallsTo(g, fo) {
+				sites++
+				args := engine.CallArgs(cs)
+				if idx < 0 || idx >= len(args) || !loweredAt(g, args[idx], depth+1) {
+					return false
+				}
+			}
+		}
+		return sites > 0
+	}
+	routersT := p.Named("pkg/util/vhost", "Routers")
+	var methods []*ssa.Function
+	if routersT != nil {
+		for _, mf := range methodsOf(p, routersT) {
+			methods = append(methods, mf)
+		}
+	}
+	sort.Slice(methods, func(i, j int) bool { return methods[i].Name() < methods[j].Name() })
+	for _, f := range methods {
+		f := f
+		engine.ForEachInstr(f, func(in ssa.Instruction) {
+			var m, idx ssa.Value
+			what := ""
+			switch x := in.(type) {
+			case *ssa.Lookup:
+				m, idx, what = x.X, x.Index, "lookup"
+			case *ssa.MapUpdate:
+				m, idx, what = x.Map, x.Key, "insert"
+			case ssa.CallInstruction:
+				if b, ok := x.Common().Value.(*ssa.Builtin); ok && b.Name() == "delete" {
+					m, idx, what = x.Common().Args[0], x.Common().Args[1], "delete"
+				}
+				if engine.IsCallTo(in, existObj) && f != exist {
+					n++
+					c.Check(loweredAt(f, engine.CallArgs(x)[1], 0), p.FuncName(f)+">exist-arg", in.Pos(), 1, nil,
+						"the duplicate test is made with the lower-cased host (otherwise App.Example.com and app.example.com both register and collide in the index)")
+				}
+			}
+			if m == nil {
+				return
+			}
+			if lf, _ := engine.LoadedField(m); lf != idxF {
+				return
+			}
+			n++
+			c.Check(loweredAt(f, idx, 0), fmt.Sprintf("%s>%s#%d", p.FuncName(f), what, n), in.Pos(), 1, nil, "host index %s uses the lower-cased host", what)
+		})
+	}
+	c.Floor(n, 5)
+
 }
